@@ -232,6 +232,16 @@ Proof. exact realC_adjoint_domain_refuted. Qed.
 Local Open Scope R_scope.
 Theorem matrix_adjoint_refuted : identity_fails (LMatrix [1; 2] [1; 2] [[0; 1]; [0; 0]]).
 Proof. exact matrix_array_weighted_refuted. Qed.
+(* ... and the precondition of matrix_adjoint_partial is NECESSARY for the class: if the identity holds
+   for the all-ones matrix between spaces with weights wd, wr, then every range weight equals every
+   domain weight (one common constant). *)
+Theorem matrix_adjoint_precondition_necessary : forall wd wr : list R,
+  (forall x y, length x = length wd -> length y = length wr ->
+     cinner wr (eval_leaf (LMatrix wd wr (repeat (ones (length wd)) (length wr))) x) y =
+     cinner wd x (eval (leaf_adjoint (LMatrix wd wr (repeat (ones (length wd)) (length wr)))) y)) ->
+  forall i j, (i < length wr)%nat -> (j < length wd)%nat -> nth i wr 0 = nth j wd 0.
+Proof. exact matrix_identity_forces_equal_weights. Qed.
+Print Assumptions matrix_adjoint_precondition_necessary.
 Theorem matrix_adjoint_other_range_refuted : identity_fails (LMatrix [1] [2] [[1]]).
 Proof. exact matrix_weighted_refuted. Qed.
 Theorem sampling_adjoint_const_weight_refuted : identity_fails (LSampling [2] [0%nat] false 1).
